@@ -197,6 +197,7 @@ func run(env *core.Env, rep *core.Report, prop string) *core.Result {
 	}
 	stages := s.stageLevel(grammar, stageN)
 	stages += s.unsupportedBuiltins(prop)
+	stages += s.hooksOnly()
 	cliRuns := 0
 	if prop == "C07" {
 		csel := clis
@@ -290,4 +291,29 @@ func firstLineOf(s string) string {
 		}
 	}
 	return ""
+}
+
+// hooksOnly: a task without commands still has its before and after hooks, in that order (through the
+// binary: empty command list, and variations with an empty command list).
+func (s *shared) hooksOnly() int {
+	n := 0
+	for k, body := range []string{
+		"    command: []\n",
+		"    command: []\n    variations: [{V: a}, {V: b}]\n",
+	} {
+		d := s.env.Sub("hooksonly")
+		home := s.env.Sub("hohome")
+		trace := filepath.Join(d, "trace")
+		y := fmt.Sprintf("tasks:\n  t:\n    before: [\"echo before >> %s\"]\n    after: [\"echo after1 >> %s\", \"echo after2 >> %s\"]\n%s", trace, trace, trace, body)
+		_ = ioutil.WriteFile(filepath.Join(d, "tasks.yaml"), []byte(y), 0o644)
+		res := core.RunBin(d, core.CleanEnv(home), 20*time.Second, "", s.env.Taskctl, "--raw", "t")
+		n++
+		b, _ := ioutil.ReadFile(trace)
+		got := strings.Join(strings.Fields(string(b)), " ")
+		if res.TimedOut || res.Crashed() || res.Exit != 0 || got != "before after1 after2" {
+			s.rep.Add(core.Finding{Prop: "C06", Key: "C06:hooks-only:order-or-extent-of-commands", What: fmt.Sprintf("a task with hooks but no commands (form %d): exit %d, executed %q; expected \"before after1 after2\"", k, res.Exit, got),
+				Detail: map[string]interface{}{"yaml": y, "stderr": tailS(res.Stderr, 500)}})
+		}
+	}
+	return n
 }
